@@ -119,6 +119,7 @@ def main():
     ap.add_argument("--repo", default="/repo")
     ap.add_argument("--jobs", type=int, default=14)
     ap.add_argument("-v", action="store_true")
+    ap.add_argument("--write-meta", action="store_true", help="record what fired now in seeded/<id>/meta.json (checks_now) and seeded/SUMMARY.json")
     ap.add_argument("--where", action="store_true", help="only print the cached facts directory of each selected variant (for sa/dump.py)")
     a = ap.parse_args()
     props = a.prop.split(",") if a.prop else ALL
@@ -192,6 +193,22 @@ def main():
                     print("      %s %s" % (p, k))
                 for p, u in und:
                     print("      %s UNDECIDED %s" % (p, u[:160]))
+    if a.write_meta:
+        summary = []
+        for e in ents:
+            if e["kind"] != "seeded":
+                continue
+            mp = os.path.join(os.path.dirname(e["patch"]), "meta.json")
+            m = json.load(open(mp))
+            if not e["skip"]:
+                m["checks_now"] = {"how": "tools/regress.py --write-meta (scratch copy of /repo + patch; ./check Cxx for all 18)",
+                                   "fired": sorted({"%s key: %s" % (p, k) for (p, k) in e.get("fired", [])})}
+                json.dump(m, open(mp, "w"), indent=1)
+            fired = m.get("checks_now", {}).get("fired", [])
+            summary.append((os.path.basename(os.path.dirname(e["patch"])), m.get("checks_when_it_arrived", {}).get("caught"),
+                            sorted({f.split(" key: ")[1].split("|")[0] + "(" + f.split()[0] + ")" for f in fired})))
+        if not a.only:
+            json.dump(summary, open(os.path.join(HERE, "seeded", "SUMMARY.json"), "w"), indent=1)
     print(json.dumps(summ))
     return 1 if bad else 0
 
